@@ -30,6 +30,7 @@ MCLibs == LibsOver(0..(NCodes - 1))
 \* a sub-model for the reachability witnesses: fitting modes with margins -1, 0, +1 only
 WitnessCodes == {c \in 0..(NCodes - 1) : Fields(c).f = 1 /\ Fields(c).d \in {-1, 0, 1}}
 MCWitnessLibs == LibsOver(WitnessCodes)
+MCWitnessLibs1 == {l \in MCWitnessLibs : Len(l) = 1}       \* the libraries carrying the stage / batch dimensions
 \* add/drop stage configurations: P lists add profile 3 BEFORE add profile 0 and drop profile 2 before drop profile 1
 P == <<[id |-> 3, kind |-> "add", inv |-> 100], [id |-> 0, kind |-> "add", inv |-> 400],
        [id |-> 2, kind |-> "drop", inv |-> 150], [id |-> 1, kind |-> "drop", inv |-> 700]>>
